@@ -118,8 +118,9 @@ SIXTH = {
 }
 EIGHTH = {
  "C01": "R01.37 (break leaves the innermost for, switch or select of its function; found D119, D120), R01.38 (range over a channel only in the form without key; D125), R01.39/R01.40 (select receive clauses: variable declared only for :=, every clause form has a direction; D127, D128), R01.41 (each blank assignment has its own location; D131).",
- "C02": "R02.21 (the direct-store shortcut of operator results is not taken for the blank identifier; D135, and D136 - a regression of D35 found by probing).",
+ "C02": "R02.21 (the direct-store shortcut of operator results is not taken for the blank identifier; D135, and D136 - a regression of D35 found by probing), R02.22 (division by a zero constant is an error only for a constant or integer dividend; D143).",
  "C03": "R03.22 (= R12.32: conversion of a typed constant checked; D121), R03.23 (unsafe builtin names agree; D124), R03.24 (iota reset at the start of each constant declaration; D130); R03.5 no longer counts that reset as an advance.",
+ "C05": "R05.19 (a literal is not built in place of an error-typed destination; D139), R05.20 (nil interface values recognised before they are looked into; D140), R05.21 (promotion through embedded fields only, sibling agreement; D141), R05.22 (method depth and field depth compared in the same unit; D142).",
  "C06": "R06.18 (a panic that leaves a frame is no longer in flight there; D126).",
  "C07": "R07.22 (Symbols recomputed at each call), R07.23 (variadic test of callBin on a position of the parameter list).",
  "C08": "R08.14 (= R04.6: a literal called in place also captures a clone), R08.15 (= R01.39/R01.40), R08.16 (select send converts the value as a send statement; D129), guarded-by entry opt.env -> Interpreter.envMu in R08.3 with element stores counted as writes (D132: a script could kill the host with concurrent os.Setenv/os.Getenv).",
